@@ -1495,7 +1495,7 @@ func (x *Exec) callFrame(c *ast.CallExpr, fi *frameInfo) {
 
 func (fi *frameInfo) matches(key string) bool {
 	for k := range fi.heapKeys {
-		if key == k || strings.HasPrefix(key, k+".") {
+		if key == k || strings.HasPrefix(key, k+".") || (k == "map" && strings.HasPrefix(key, "map<")) {
 			return true
 		}
 		if strings.HasPrefix(k, "*.") {
